@@ -321,7 +321,7 @@ theorem inferOrAllL_eq_map (F : List (List String)) (fuel : Nat) : ∀ (cs : Lis
 
 /-! ### the well-formedness of a raw tree that the composition needs (decidable) -/
 
-theorem wfL_mem : ∀ {cs : List PTree}, wfL cs = true → ∀ c ∈ cs, wfT true c = true
+theorem wfL_mem {strict : Bool} : ∀ {cs : List PTree}, wfL strict cs = true → ∀ c ∈ cs, wfT strict c = true
   | [], _, c, hc => by cases hc
   | d :: ds, h, c, hc => by
     simp only [wfL, Bool.and_eq_true] at h
@@ -329,19 +329,20 @@ theorem wfL_mem : ∀ {cs : List PTree}, wfL cs = true → ∀ c ∈ cs, wfT tru
     · exact h.1
     · exact wfL_mem h.2 c hc
 
-theorem wfL_of_forall : ∀ {cs : List PTree}, (∀ c ∈ cs, wfT true c = true) → wfL cs = true
+theorem wfL_of_forall {strict : Bool} : ∀ {cs : List PTree}, (∀ c ∈ cs, wfT strict c = true) → wfL strict cs = true
   | [], _ => rfl
   | d :: ds, h => by
     simp only [wfL, Bool.and_eq_true]
     exact ⟨h d (List.mem_cons_self ..), wfL_of_forall fun c hc => h c (List.mem_cons_of_mem _ hc)⟩
 
+/-- below a parallel, OR or other node the children are strict; below a choice they inherit the flag -/
 theorem wfT_children {strict : Bool} {op : POp} {cs : List PTree} (h : wfT strict (.node op cs) = true) :
-    wfL cs = true := by
+    wfL (if op = .xor then strict else true) cs = true := by
   cases op <;> simp only [wfT, Bool.and_eq_true] at h
-  · exact h.2
-  · exact h
-  · exact h
-  · exact h
+  · simpa using h.2
+  · simpa using h
+  · simpa using h
+  · simpa using h
 
 /-! ### labels along `classify` -/
 
@@ -428,7 +429,9 @@ theorem grandchild_wf : ∀ (tc : List PTree), (∀ c ∈ tc, wfT true c = true)
   | .tau, _, hgc => simp [grandchildrenOf] at hgc
   | .node op gcs, hw, hgc =>
     simp only [grandchildrenOf, List.mem_filter] at hgc
-    exact wfL_mem (wfT_children hw) g hgc.1
+    have := wfT_children hw
+    simp only [ite_self] at this
+    exact wfL_mem this g hgc.1
 
 theorem NE_sublist {a b : List String} (h : a.Sublist b) : (NE a).Sublist (NE b) := List.Sublist.filter _ h
 
@@ -593,6 +596,44 @@ theorem step_good (F : List (List String)) (strict : Bool) (cs : List PTree)
       ((NE_sublist ((labelsL_removed_sublist _).trans (labelsL_sublist hsub.1))).nodup hnd)
       ((NE_sublist (labelsL_sublist hsub.2)).nodup hnd) (disjointS_iff.mp hdj)
 
+/-- a choice hands its set to one child: stand-ins that need not keep the empty set suffice when the choice itself
+need not -/
+theorem xor_congrS (F : List (List String)) (strict : Bool) (f : PTree → PTree) (cs : List PTree)
+    (hg : ∀ c ∈ cs, GoodS strict F c (f c)) : GoodS strict F (.node .xor cs) (.node .xor (cs.map f)) := by
+  have key : ∀ (l : List PTree), (∀ c ∈ l, c ∈ cs) → ∀ (s : List String),
+      (s ≠ [] ∧ (∃ s0 ∈ F, ∀ x ∈ PTree.labelsL cs, (x ∈ s0 ↔ x ∈ s)) ∨ (s = [] ∧ strict = true)) →
+      PTree.semAny l s → PTree.semAny (l.map f) s := by
+    intro l
+    induction l with
+    | nil => intro _ s _ h; simp only [PTree.semAny] at h
+    | cons c l ih =>
+      intro hl s hs h
+      simp only [PTree.semAny] at h
+      simp only [List.map_cons, PTree.semAny]
+      have hc : c ∈ cs := hl c (List.mem_cons_self ..)
+      rcases h with h | h
+      · left
+        rcases hs with ⟨hne, s0, hs0, hag⟩ | ⟨rfl, hst⟩
+        · exact (hg c hc).pos s hne ⟨s0, hs0, fun x hx => hag x (labelsL_mem hc x hx)⟩ h
+        · exact (hg c hc).nil hst h
+      · right
+        exact ih (fun d hd => hl d (List.mem_cons_of_mem _ hd)) s hs h
+  refine ⟨?_, ?_, ?_, ?_⟩
+  · intro s hne hp hs
+    obtain ⟨s0, hs0, hag⟩ := hp
+    simp only [PTree.labels] at hag
+    simp only [PTree.sem] at hs ⊢
+    exact key cs (fun _ h => h) s (Or.inl ⟨hne, s0, hs0, hag⟩) hs
+  · intro hst hs
+    simp only [PTree.sem] at hs ⊢
+    exact key cs (fun _ h => h) [] (Or.inr ⟨rfl, hst⟩) hs
+  · intro x hx
+    simp only [PTree.labels] at hx ⊢
+    exact labelsL_map_sub f cs (fun c hc => (hg c hc).lab) x hx
+  · intro h
+    simp only [PTree.labels] at h ⊢
+    exact (nd_rel cs (cs.map f) (rel2_map f cs fun c hc => ⟨(hg c hc).lab, (hg c hc).nd⟩) h).1
+
 /-- **the OR inference over the whole tree** -/
 theorem inferOrAll_goodS (F : List (List String)) (hF : ∀ s0 ∈ F, "" ∉ s0) : ∀ (fuel : Nat) (strict : Bool)
     (t : PTree), wfT strict t = true → (NE t.labels).Nodup → GoodS strict F t (inferOrAll F fuel t)
@@ -602,7 +643,7 @@ theorem inferOrAll_goodS (F : List (List String)) (hF : ∀ s0 ∈ F, "" ∉ s0)
   | fuel + 1, strict, t, hw, hnd => by
     have ih : ∀ c, wfT true c = true → (NE c.labels).Nodup → Good F c (inferOrAll F fuel c) :=
       fun c h1 h2 => (inferOrAll_goodS F hF fuel true c h1 h2).toGood
-    have children : ∀ (op : POp) (cs : List PTree), wfL cs = true → (NE (PTree.labelsL cs)).Nodup →
+    have children : ∀ (op : POp) (cs : List PTree), wfL true cs = true → (NE (PTree.labelsL cs)).Nodup →
         Good F (.node op cs) (.node op (cs.map (inferOrAll F fuel))) := fun op cs hwl hndl =>
       node_congr F hF _ op cs hndl (fun c hc => ih c (wfL_mem hwl c hc) (nd_child hndl c hc))
     cases t with
@@ -613,22 +654,29 @@ theorem inferOrAll_goodS (F : List (List String)) (hF : ∀ s0 ∈ F, "" ∉ s0)
       simp only [inferOrAll, inferOrNode]
       exact (Good.refl F _).toS strict
     | node op cs =>
-      have hwl := wfT_children hw
+      have hwl0 := wfT_children hw
       simp only [PTree.labels] at hnd
-      have unchanged : inferOrNode F (.node op cs) = .node op cs →
+      have unchanged : wfL true cs = true → inferOrNode F (.node op cs) = .node op cs →
           GoodS strict F (.node op cs) (inferOrAll F (fuel + 1) (.node op cs)) := by
-        intro hid
+        intro hwl hid
         have : inferOrAll F (fuel + 1) (.node op cs) = .node op (cs.map (inferOrAll F fuel)) := by
           simp only [inferOrAll, hid, inferOrAllL_eq_map]
         rw [this]
         exact (children op cs hwl hnd).toS strict
       cases op with
-      | xor => exact unchanged (by simp only [inferOrNode])
-      | or => exact unchanged (by simp only [inferOrNode])
-      | other => exact unchanged (by simp only [inferOrNode])
+      | xor =>
+        have hwl : wfL strict cs = true := by simpa using hwl0
+        have : inferOrAll F (fuel + 1) (.node .xor cs) = .node .xor (cs.map (inferOrAll F fuel)) := by
+          simp only [inferOrAll, inferOrNode, inferOrAllL_eq_map]
+        rw [this]
+        exact xor_congrS F strict _ cs fun c hc =>
+          inferOrAll_goodS F hF fuel strict c (wfL_mem hwl c hc) (nd_child hnd c hc)
+      | or => exact unchanged (by simpa using hwl0) (by simp only [inferOrNode])
+      | other => exact unchanged (by simpa using hwl0) (by simp only [inferOrNode])
       | and =>
+        have hwl : wfL true cs = true := by simpa using hwl0
         by_cases hte : (classify cs).1.isEmpty = true
-        · apply unchanged
+        · apply unchanged hwl
           cases hcl : classify cs with
           | mk tauC nonTau =>
             rw [hcl] at hte
